@@ -15,6 +15,10 @@ MISSED_FIRST = {  # id -> what was strengthened (hand-maintained)
     "C24c": "the per-state sweep offered every message variant with fresh field values only; it now also offers the last three messages of the session again (same cookie / body / peers as the state may hold)",
     "C25c": "reported by C21 as it stood (handshake-n2n/n2c:message-differs); C25 itself missed it because pallas' own client sends the proposal in one segment - a simulated initiator now delivers the Propose cut into several mux segments to the real Server::handshake in a third of the runs",
     "C42c": "an error for a slot-only point beyond the last immutable block was accepted as equivalent to the empty suffix; the unchanged tree always answers Ok(empty) there when the database holds blocks, so the oracle now demands it (and far-away slots up to u64::MAX are generated)",
+    "C21d": "no workload ever dropped a pending recv_full_msg; receivers now give up waiting at seeded moments (possibly between two segments of one message) and call again - cancellation as a fault kind",
+    "C22d": "reported by C21 as it stood (txsubmission:message-differs under cuts); C22 itself missed it because no stack-1 message of the zoo exceeded one mux segment - one body in thirty-two is now 60..140 kB, so the real muxer sends the message in several segments",
+    "C23d": "no workload ever dropped a pending send; in a quarter of the high-level sends the future is now polled once and dropped if still pending - either nothing reached the peer and the agent has not moved, or the message is on the wire and the agent is in the successor state",
+    "C25d": "the responder saw one connection per peer id; a third of the runs now start with an earlier connection of the same peer id that negotiated another table and ended with or without its Disconnected notice reaching the behaviour before the new Connected",
     "C12b": "histories ended at the refused update of the last period; they now continue (observations, signatures, restarts, further refused updates) on the exhausted key",
 }
 rows = []
